@@ -10,7 +10,7 @@ from ..hx import assume, require, reach, Skip
 MANIFEST = dict(
     engines="AB",
     technique="regex-to-SMT (z3 regular expressions): the pattern object actually compiled by globs_to_re for each generated glob list is translated and compared, as a language over file names of unbounded length, with the union of the reference glob languages; CrossHair symbolic execution of FilesParagraph.matches (pattern cache) and Copyright.find_files_paragraph with symbolic file names",
-    text="Engine B: for every list of 1-2 (thorough: up to 3) globs built from up to 3 (thorough: 4) tokens out of '*', '?', the three legal escapes, and literals including every ASCII regex metacharacter, '/', '.', and a non-ASCII letter, the set of ALL file names (any length, any characters up to U+2FFFF, newlines included) matched by the real compiled pattern equals the reference glob semantics; illegal escapes must raise the format error. Engine A: pattern cache invalidation and last-match-wins over 2-3 Files paragraphs for all file names up to 3 characters.",
+    text="Engine B: for every list of 1-2 (thorough: up to 3) globs built from up to 3 (thorough: 4) tokens out of '*', '?', the three legal escapes, and literals including every ASCII regex metacharacter, '/', '.', and a non-ASCII letter, the set of ALL file names (any length, any characters up to U+2FFFF, newlines included) matched by the real compiled pattern equals the reference glob semantics; illegal escapes must raise the format error. Engine A: pattern cache invalidation and last-match-wins over 2-3 Files paragraphs for all file names up to 3 characters. All single globs of up to 5 (thorough: 6) tokens over { } , 2 a * (regex repetition syntax is plain text in a glob); illegal escapes next to '%' and braces; any exception type other than the format error from the compile step is a counterexample.",
     note="Trusted: z3's regex theory; the re->z3 translation (validated against CPython's re at selftest); the reference glob matcher in this file. A KNOWN FINDING (unanchored non-last alternatives; pinned by test_multi_literal/test_multi_wildcard) is reported as KNOWN-FINDING and its class is excluded from the violation queries by an explicit language constraint.",
 )
 
